@@ -131,10 +131,43 @@ def says(effs, upto_seq, member, container, want):
     return False
 
 
+def check_prehash(ctx, ci):
+    """OneToOne.update is all-or-nothing with respect to unhashable items: every loop that walks a source *before* the storing
+    loop hashes each item it binds (values always; keys too unless they come out of a dict), so a TypeError is raised before
+    the first pair is stored."""
+    up = ci.own('update')
+    if not isinstance(up, FuncInfo):
+        return
+    loops = [n for n in ast.walk(up.node) if isinstance(n, ast.For)]
+    storing = [n for n in loops if any(isinstance(x, ast.Subscript) and isinstance(x.ctx, ast.Store) and txt(x.value) == 'self'
+                                       for x in ast.walk(n))]
+    if not storing:
+        ctx.unknown('T2.prehash', up.fq, 'no storing loop (self[key] = val) found', up.loc)
+        return
+    first_store = min(n.lineno for n in storing)
+    pre = [n for n in loops if n.lineno < first_store and n not in storing]
+    if not pre:
+        ctx.ob('T2.prehash', up.fq, 'items are validated (hashed) before the first pair is stored', False, loc=up.loc,
+               detail='no validating loop before the storing loop')
+        return
+    for lp in pre:
+        names = [x.id for x in ast.walk(lp.target) if isinstance(x, ast.Name)]
+        it = txt(lp.iter)
+        from_dict_values = it.endswith('.values()')
+        from_dict_keys = it.endswith('.keys()') or it.endswith('.items()') and False
+        hashed = {txt(c.args[0]) for c in ast.walk(lp) if isinstance(c, ast.Call) and call_name(c) == 'hash' and c.args}
+        need = [nm for nm in names if nm != '_']
+        ok = all(nm in hashed for nm in need)
+        ctx.ob('T2.prehash', up.fq, 'the loop over `%s` hashes every item it binds before anything is stored (a TypeError leaves the '
+               'mapping untouched)' % it, ok, loc='%s:%d' % (up.module.relpath, lp.lineno),
+               detail='binds %s, hashes %s' % (need, sorted(hashed)))
+
+
 def check_onetoone(ctx, cls_fq):
     prog = ctx.program
     ci = prog.cls(cls_fq)
     ctx.saw('classes', cls_fq)
+    check_prehash(ctx, ci)
     for name in DICT_MUTATORS:
         if name == '__init__':
             continue
@@ -278,10 +311,119 @@ def m2m_effects(w, path):
     return out
 
 
+def _mirror(text, a, b):
+    """swap forward and inverse side: data <-> inv.data and the two parameter names a <-> b"""
+    import re as _re
+    t = text.replace('.inv.data', '.\x00').replace('.data', '.inv.data').replace('.\x00', '.data')
+    t = _re.sub(r'\b%s\b' % _re.escape(a), '\x01', t)
+    t = _re.sub(r'\b%s\b' % _re.escape(b), a, t)
+    return t.replace('\x01', b)
+
+
+def check_mirror(ctx, ci):
+    """T25.mirror: ManyToMany keeps two mappings that are mirror images; in add / remove the statements for the inverse side
+    are the statements for the forward side with data <-> inv.data and key <-> value swapped, and the bulk merge of another
+    ManyToMany treats both sides alike (a step present for one side only leaves the two mappings out of step)."""
+    for name in ('add', 'remove'):
+        m = ci.own(name)
+        if not isinstance(m, FuncInfo) or len(m.params) < 3:
+            continue
+        a, b = m.params[1], m.params[2]
+
+        def sd(t):
+            return 'inv' if t.endswith('.inv.data') else 'fwd' if t.endswith('.data') else None
+        eff = set()
+        for n in ast.walk(m.node):
+            if isinstance(n, ast.Assign) and len(n.targets) == 1 and isinstance(n.targets[0], ast.Subscript) and sd(txt(n.targets[0].value)):
+                eff.add(('init', sd(txt(n.targets[0].value)), txt(n.targets[0].slice)))
+            elif isinstance(n, ast.Delete):
+                for t in n.targets:
+                    if isinstance(t, ast.Subscript) and sd(txt(t.value)):
+                        eff.add(('del', sd(txt(t.value)), txt(t.slice)))
+            elif isinstance(n, ast.Call) and isinstance(n.func, ast.Attribute) and n.func.attr in ('add', 'remove', 'discard') and n.args:
+                r = n.func.value
+                if isinstance(r, ast.Subscript) and sd(txt(r.value)):
+                    eff.add((n.func.attr, sd(txt(r.value)), txt(r.slice), txt(n.args[0])))
+                elif isinstance(r, ast.Call) and isinstance(r.func, ast.Attribute) and r.func.attr == 'setdefault' and sd(txt(r.func.value)) \
+                        and r.args:
+                    eff.add(('init', sd(txt(r.func.value)), txt(r.args[0])))
+                    eff.add((n.func.attr, sd(txt(r.func.value)), txt(r.args[0]), txt(n.args[0])))
+            elif isinstance(n, ast.Call) and isinstance(n.func, ast.Name) and n.func.id in m.module.functions and len(n.args) >= 3 and \
+                    sd(txt(n.args[0])):
+                # a shared private helper applied to one side: helper(<side mapping>, a, b)
+                eff.add(('helper:' + n.func.id, sd(txt(n.args[0])), txt(n.args[1]), txt(n.args[2])))
+        sw = {a: b, b: a}
+        fwd = {(e[0],) + tuple(e[2:]) for e in eff if e[1] == 'fwd'}
+        inv = {(e[0],) + tuple(sw.get(x, x) for x in e[2:]) for e in eff if e[1] == 'inv'}
+        ok = bool(fwd) and fwd == inv
+        det = 'forward-only: %s; inverse-only: %s' % (sorted(fwd - inv), sorted(inv - fwd)) if not ok else '%d effects per side' % len(fwd)
+        ctx.ob('T25.mirror', m.fq, 'the inverse side is updated by the mirror image of the forward-side effects '
+               '(data <-> inv.data, %s <-> %s)' % (a, b), ok, loc='%s:%d' % (m.module.relpath, m.node.lineno), detail=det)
+    up = ci.own('update')
+    if isinstance(up, FuncInfo):
+        # the branch that merges another ManyToMany: loops over <other>.data and <other>.inv.data
+        loops = [n for n in ast.walk(up.node) if isinstance(n, ast.For) and isinstance(n.iter, ast.Attribute) and n.iter.attr == 'data']
+        fwd = [n for n in loops if not txt(n.iter).endswith('.inv.data')]
+        inv = [n for n in loops if txt(n.iter).endswith('.inv.data')]
+        def side(t):
+            return 'inv' if t.endswith('.inv.data') else 'fwd' if t.endswith('.data') else None
+
+        def loop_sig(loop):
+            """effects of a merge loop: (effect, side written, how the value relates to the other object's set, guard)"""
+            from rules.common import guard_atoms
+            sigs = set()
+            var = txt(loop.target)
+            for n in ast.walk(loop):
+                g = None
+                if isinstance(n, ast.Assign) and len(n.targets) == 1 and isinstance(n.targets[0], ast.Subscript) and \
+                        side(txt(n.targets[0].value)) and txt(n.targets[0].value).startswith('self.'):
+                    v = n.value
+                    src = None
+                    kind = 'other'
+                    if isinstance(v, ast.Call) and call_name(v) in ('set', 'frozenset') and len(v.args) == 1:
+                        src, kind = v.args[0], 'copy'
+                    elif isinstance(v, ast.SetComp) and len(v.generators) == 1 and not v.generators[0].ifs and \
+                            txt(v.elt) == txt(v.generators[0].target):
+                        src, kind = v.generators[0].iter, 'copy'
+                    elif isinstance(v, ast.Call) and isinstance(v.func, ast.Attribute) and v.func.attr == 'copy' and not v.args:
+                        src, kind = v.func.value, 'copy'
+                    elif isinstance(v, ast.Subscript):
+                        src, kind = v, 'alias'
+                    sside = side(txt(src.value)) if isinstance(src, ast.Subscript) else None
+                    g = ('store', side(txt(n.targets[0].value)), kind, sside)
+                elif isinstance(n, ast.Call) and isinstance(n.func, ast.Attribute) and n.func.attr in ('update', '__ior__') and \
+                        isinstance(n.func.value, ast.Subscript) and side(txt(n.func.value.value)) and txt(n.func.value.value).startswith('self.') \
+                        and n.args and isinstance(n.args[0], ast.Subscript):
+                    g = ('update', side(txt(n.func.value.value)), 'merge', side(txt(n.args[0].value)))
+                if g is not None:
+                    atoms = guard_atoms(up, n, var)
+                    norm = frozenset(frozenset((a.replace('.inv.data', '.D').replace('.data', '.D'), tr) for a, tr in c) for c in atoms)
+                    sigs.add(g + (norm,))
+            return sigs
+
+        def swap(sig):
+            sw = {'fwd': 'inv', 'inv': 'fwd', None: None}
+            return {(e, sw[s1], k, sw[s2], g) for e, s1, k, s2, g in sig}
+        if fwd or inv:
+            ok = len(fwd) == 1 and len(inv) == 1 and bool(loop_sig(fwd[0])) and swap(loop_sig(fwd[0])) == loop_sig(inv[0])
+            ctx.ob('T25.mirror', up.fq, 'merging another ManyToMany updates data and inv.data by mirror-image loops', ok,
+                   loc='%s:%d' % (up.module.relpath, (fwd or inv)[0].lineno),
+                   detail='forward loops %d, inverse loops %d' % (len(fwd), len(inv)))
+        else:
+            pairs = [n for n in ast.walk(up.node) if isinstance(n, ast.For) and isinstance(n.iter, (ast.Tuple, ast.List)) and
+                     len(n.iter.elts) == 2 and '.inv.data' in txt(n.iter.elts[1]) and '.data' in txt(n.iter.elts[0])]
+            if pairs:
+                ctx.ob('T25.mirror', up.fq, 'merging another ManyToMany runs one loop body over (forward, inverse) pairs: symmetric by '
+                       'construction', True, loc='%s:%d' % (up.module.relpath, pairs[0].lineno))
+            else:
+                ctx.info('T25.mirror: no direct merge of another ManyToMany in update (goes through add)')
+
+
 def check_manytomany(ctx, cls_fq):
     prog = ctx.program
     ci = prog.cls(cls_fq)
     ctx.saw('classes', cls_fq)
+    check_mirror(ctx, ci)
     model = PlainModel(prog)
     for name in sorted(ci.members):
         m = ci.own(name)
